@@ -26,7 +26,7 @@ META = dict(
 SETS = {"A": [(1, 9), (1, 10)], "B": [(1, 10), (2, 9)], "C": [(2, 10), (1, 9), (2, 9), (1, 10)]}  # C: accessory ids interleaved, as a caller (or a set) may pass them
 ALPH_SUBS = ["sub:A", "sub:B", "sub:C", "unsub:A", "unsub:B", "drop", "arm-cut", "ev1", "L2+"]
 ALPH_OFFLINE = ["sub:A", "sub:C", "unsub:A", "offline", "online", "drop", "ev1"]
-ALPH_EVENTS = ["L2+", "L2-", "R+", "ev1", "ev2", "ev-split", "ev-empty", "ev-nonjson", "drop", "sub:A"]
+ALPH_EVENTS = ["L2+", "L2-", "R+", "ev1", "ev2", "ev-split", "ev-split-stall", "ev-empty", "ev-nonjson", "drop", "sub:A"]
 ALPH_SELF = ["S+", "L2+", "ev1", "ev2", "R+", "drop"]
 
 
@@ -194,7 +194,7 @@ class H(explore.Harness):
             self._add_listener("R")
         elif k == "S+":
             self._add_listener("S")
-        elif k in ("ev1", "ev2", "ev-split"):
+        elif k in ("ev1", "ev2", "ev-split", "ev-split-stall"):
             msgs = b""
             for _ in range(2 if k == "ev2" else 1):
                 self.nev += 1
@@ -203,11 +203,13 @@ class H(explore.Harness):
                     self.expected[name].append(((1, 9), self.nev))
                     if name.startswith("S"):
                         pass
-            wire = cur.session.respond(msgs, sizes=[40] if k == "ev-split" else None)
-            if k == "ev-split":
+            wire = cur.session.respond(msgs, sizes=[40] if k.startswith("ev-split") else None)
+            if k.startswith("ev-split"):
                 h = len(wire) // 2 + 3
                 cur.send(wire[:h])
                 self.loop.run_until_idle()
+                if k == "ev-split-stall":
+                    self.loop.advance(45.0)  # the stream stalls for longer than any timer of the library before the rest arrives
                 cur.send(wire[h:])
             else:
                 cur.send(wire)
